@@ -13,9 +13,9 @@ CHECK = {
                   "Schedules of discv5/uTP goroutines belong to the OS scheduler: a violation seen is real, not seeing one is weaker evidence. Quiescence is awaited up to 20 s (25 s for the accept time-out path).",
     "technique": "property-based testing (rapid) with injected faults (scripted peers, silent endpoints, stream corruption, shutdown points): conservation invariant on obtainable slots after quiescence",
     "runs": [
-        {"name": "out", "run": "^TestC16_Outbound$", "checks": {"quick": 25, "thorough": 300}, "shards": {"quick": 6, "thorough": 16}},
+        {"name": "out", "run": "^TestC16_Outbound$", "checks": {"quick": 25, "thorough": 50}, "shards": {"quick": 6, "thorough": 16}, "rounds": {"quick": 1, "thorough": 4}},
         {"name": "reuse", "run": "^TestC16_Reuse$", "checks": {"quick": 2, "thorough": 12}, "shards": {"quick": 6, "thorough": 16}},
-        {"name": "in", "run": "^TestC16_Inbound$", "checks": {"quick": 8, "thorough": 80}, "shards": {"quick": 8, "thorough": 16}},
+        {"name": "in", "run": "^TestC16_Inbound$", "checks": {"quick": 8, "thorough": 20}, "shards": {"quick": 8, "thorough": 16}, "rounds": {"quick": 1, "thorough": 3}},
     ],
     "rule": "outbound: rapid draws (limit, offer list {target kind, scripted reply kind, key count, unencodable?}, serial?, stop point, gossip rounds, workers?); inbound: rapid draws "
             "(limit, offer list {key count, transfer outcome}, queue capacity, finish by Stop or by time-out). Non-trivial = at least one unhappy path, the limit reached (an offer "
